@@ -35,6 +35,8 @@ type StructInfo struct {
 	Comp   map[string]string // field -> heap component name
 	Alloc  string
 	Named  *types.Named
+	GhostF    []string          // ghost fields (not in Fields: never copied / zeroed by Go code)
+	GhostSort map[string]string // sorts of ghost fields without a Go type
 }
 
 type PtrInfo struct { // pointer to a non-struct (e.g. *distQueue)
